@@ -29,6 +29,8 @@ def run(ctx):
     r3_misguided(ctx)
     r4_lookup_totality(ctx)
     r5_corral_brackets(ctx)
+    r6_type_dispatch(ctx)
+    r7_corral_poles(ctx)
 
 
 def _single_return(fn):
@@ -212,7 +214,92 @@ def r5_corral_brackets(ctx):
         ctx.ob("C16.R5", "coba/learners/corral.py", "CorralLearner._log_barrier_omd", lp, "the bracket list walked pairwise is sorted", ok, detail={"brackets": [unparse(v)[:120] for v in vals]})
 
 
+def r6_type_dispatch(ctx):
+    from . import typetable
+    ctx.rule("C16.R6", "actions of any dense/sparse type are made hashable: make_hashable classifies through the Dense/Sparse ABCs (which cover lists, tuples, "
+                       "every mapping, the lazy row views and the hashable wrappers), and the ABC registrations are in place")
+    n = typetable.dispatch_uses_abcs(ctx, "C16.R6", "coba/learners/bandit.py", "make_hashable")
+    ctx.floor("C16.R6", "dense/sparse type tests in make_hashable", n, 2)
+    fn = ctx.fn("coba/learners/bandit.py", "make_hashable")
+    table = {}
+    for st in walk_shallow(fn):
+        if isinstance(st, ast.If) and isinstance(st.test, ast.Call) and call_name(st.test) == "isinstance":
+            rets = [r for b in st.body for r in walk_shallow(b) if isinstance(r, ast.Return)] + ([st.body[0]] if isinstance(st.body[0], ast.Return) else [])
+            if rets and isinstance(rets[0].value, ast.Call):
+                table[unparse(st.test.args[1])] = call_name(rets[0].value)
+    ctx.ob("C16.R6", "coba/learners/bandit.py", "make_hashable", fn, "Dense -> HashableDense, Sparse -> HashableSparse", table == {"Dense": "HashableDense", "Sparse": "HashableSparse"},
+           detail={"table": table}, stmt="make_hashable table")
+    typetable.registrations(ctx, "C16.R6")
+
+
+def r7_corral_poles(ctx):
+    """The root search brackets the solution between consecutive poles of f(l) = sum 1/((1/p)+eta*(loss-l)).  The list of break points must be
+    those poles: substituting each break-point expression for l makes the term's denominator vanish identically (exact rational identity test)."""
+    from ..algebra import identically_zero
+    REL, Q = "coba/learners/corral.py", "CorralLearner._log_barrier_omd"
+    ctx.rule("C16.R7", "Corral: the break points of the root search are exactly the poles of f -- the break-point expression substituted for l zeroes the "
+                       "denominator of f's term identically (exact identity test over the rationals); f, df and the break points zip (ps, etas, losses) alike")
+    fn = ctx.fn(REL, Q)
+    lams = {}
+    for st in walk_shallow(fn):
+        if isinstance(st, ast.Assign) and isinstance(st.value, ast.Lambda) and isinstance(st.targets[0], ast.Name):
+            comps = [c for c in ast.walk(st.value.body) if isinstance(c, ast.ListComp)]
+            if comps and isinstance(comps[0].elt, ast.BinOp) and isinstance(comps[0].elt.op, ast.Div):
+                lams[st.targets[0].id] = (st.value, comps[0])
+    ctx.floor("C16.R7", "lambda sums of quotients in _log_barrier_omd", len(lams), 2)
+    # f is the one whose numerator is the constant 1
+    fs = [(n_, l, c) for n_, (l, c) in lams.items() if isinstance(c.elt.left, ast.Constant) and c.elt.left.value == 1]
+    ctx.floor("C16.R7", "f(l) = sum 1/denominator", len(fs), 1)
+    fname, flam, fcomp = fs[0]
+    L = flam.args.args[0].arg
+    D = fcomp.elt.right
+    breaks = [st for st in walk_shallow(fn) if isinstance(st, ast.Assign) and isinstance(st.value, ast.ListComp) and len(st.value.generators) == 1
+              and unparse(st.value.generators[0].iter) == unparse(fcomp.generators[0].iter) and st.value is not fcomp
+              and {x.id for x in ast.walk(st.value.elt) if isinstance(x, ast.Name)} <= {x.id for x in ast.walk(st.value.generators[0].target) if isinstance(x, ast.Name)}]
+    ctx.floor("C16.R7", "break-point lists zipped like f", len(breaks), 1)
+    for b in breaks:
+        same_t = unparse(b.value.generators[0].target) == unparse(fcomp.generators[0].target)
+        z = identically_zero(D, {L: b.value.elt}) if same_t else False
+        ctx.ob("C16.R7", REL, Q, b, f"substituting the break point for `{L}` zeroes f's denominator `{unparse(D)}` identically", z,
+               detail={"break point": unparse(b.value.elt), "same zip targets": same_t}, stmt="break points are the poles of f")
+    # the new weights are f's terms evaluated at the root
+    tg = {x.id for x in ast.walk(fcomp.generators[0].target) if isinstance(x, ast.Name)}
+    rets = []
+    for r in walk_shallow(fn):
+        if isinstance(r, ast.Return) and r.value is not None and enclosing_function(r) is fn:
+            vs = [r.value] if isinstance(r.value, ast.ListComp) else (assigned_value(fn, r.value.id) if isinstance(r.value, ast.Name) else [])
+            rets += [(r, v) for v in vs if isinstance(v, ast.ListComp)]
+    ctx.floor("C16.R7", "returned weight lists", len(rets), 1)
+    for r, c in rets:
+        extra = sorted({x.id for x in ast.walk(c.elt) if isinstance(x, ast.Name)} - tg)
+        ok = None
+        if len(extra) == 1 and unparse(c.generators[0]) == unparse(fcomp.generators[0]):
+            diff = ast.BinOp(left=c.elt, op=ast.Sub(), right=fcomp.elt)
+            ok = identically_zero(diff, {L: ast.Name(id=extra[0], ctx=ast.Load())})
+        ctx.ob("C16.R7", REL, Q, r, "the returned weights are f's terms evaluated at the root found", ok, detail={"weights": unparse(c.elt), "f term": unparse(fcomp.elt)}, stmt="weights are f's terms")
+    for n_, (l, c) in lams.items():
+        if n_ == fname:
+            continue
+        den = c.elt.right
+        base = den.left if isinstance(den, ast.BinOp) and isinstance(den.op, ast.Pow) else den
+        ok = unparse(base) == unparse(D) and unparse(c.generators[0]) == unparse(fcomp.generators[0]) and l.args.args[0].arg == L
+        ctx.ob("C16.R7", REL, Q, c, f"`{n_}` has the same denominator base and zip as f", ok, stmt=f"{n_} denominator")
+
+
+def _reg_dict(tree):
+    for st in tree.body:
+        if isinstance(st, ast.Expr) and isinstance(st.value, ast.Call) and ast.unparse(st.value) == "Sparse.register(abc.Mapping)":
+            st.value.args[0] = ast.Name("dict", ast.Load())
+            return
+    from ..mutate import TargetMissing
+    raise TargetMissing("Sparse.register(abc.Mapping)")
+
+
 CONTROLS = [
+    ("make_hashable tests builtin types", "coba/learners/bandit.py", M.chain(M.replace_expr("make_hashable", "isinstance(item, Dense)", "isinstance(item, (list, tuple))"),
+                                                                            M.replace_expr("make_hashable", "isinstance(item, Sparse)", "isinstance(item, dict)")), "C16.R6"),
+    ("Sparse registers dict only", "coba/primitives.py", lambda tree: _reg_dict(tree), "C16.R6"),
+    ("corral break point sign slip", "coba/learners/corral.py", M.replace_expr("CorralLearner._log_barrier_omd", "(-1 / p - eta * loss) / -eta", "loss - 1 / (p * eta)"), "C16.R7"),
     ("ucb count instead of membership", "coba/learners/bandit.py", M.replace_stmt("BanditUCBLearner._pmf", M.text_has("if never_observed_actions"),
         "if len(self._m) < len(actions):\n    max_actions = never_observed_actions\nelse:\n    values = [self._m[a] + self._Avg_R_UCB(a) for a in actions]\n    max_value = max(values)\n    max_actions = [a for a, v in zip(actions, values) if v == max_value]"), "C16.R4"),
     ("corral unsorted brackets", "coba/learners/corral.py", M.replace_expr("CorralLearner._log_barrier_omd",
